@@ -75,6 +75,7 @@ Definition cmd_of_hstmt (h : hstmt) : cmd :=
   | HAbortD c => guarded c (abortc OD)
   | HTermDest c => guarded c (CDest DTerm (EG allocv))
   | HWarnRet => CIf (EG warning) (CSet retval (EC (-1))) CSkip
+  | HRestoreMarkerMethods c => guarded c (CNull (D "marker->dummy_methods"))
   | HFree _ _ | HDestroyTmp _ | HFclose _ | HOther _ _ => CSkip
   end.
 Definition cmd_of_hstmts (l : list hstmt) : cmd := seq (map cmd_of_hstmt l).
@@ -118,10 +119,18 @@ Definition reset_input_controller (own_marker_reset : bool) : cmd :=
   (if reset_input_controller_calls_reset_marker_reader && own_marker_reset then reset_marker_reader else CSkip).
 
 (* what the marker reader starts from is observable: a stream is parsed differently when
-   SOI / SOF were "already seen" or a marker is pending *)
+   SOI / SOF were "already seen" or a marker is pending; saved COM / APPn markers are appended to
+   whatever marker_list holds; tj3DecodeYUVPlanes8 temporarily installs marker-reader methods
+   that do not parse at all *)
 Definition observe_marker_state : cmd :=
   CObs "saw_SOI" (EG (D "marker->saw_SOI")) ;; CObs "saw_SOF" (EG (D "marker->saw_SOF")) ;;
-  CObs "unread_marker" (EG (D "unread_marker")).
+  CObs "unread_marker" (EG (D "unread_marker")) ;;
+  CIfNull (D "marker_list") CSkip (CObs "markers_of_an_earlier_stream" (EC 1)) ;;
+  CIfNull (D "marker->dummy_methods") CSkip (CObs "dummy_marker_reader_methods" (EC 1)) ;;
+  (* save_marker: the stream carries markers of a type that is being saved *)
+  CIf (EA "saves_markers") (CAlloc (D "marker_list")) CSkip.
+(* jcopy_markers_execute / jpeg_read_icc_profile walk the list *)
+Definition use_marker_list : cmd := CIf (EA "saves_markers") (CObs "saved_markers" (EA "img")) CSkip.
 
 Definition get_soi : cmd :=
   seq (map (fun f => CSet (D f) (if String.eqb f "marker->saw_SOI" then EC 1
@@ -158,7 +167,7 @@ Definition read_header (selfc : bool) (own_marker_reset : bool) (faked : bool) :
   CIf (EAnd (ENe (EG gsd) (EC dstate_start)) (ENe (EG gsd) (EC dstate_inheader))) CRaise CSkip ;;
   CIf (EEq (EG gsd) (EC dstate_start))
       (reset_input_controller own_marker_reset ;; CSet gsd (EC dstate_inheader)) CSkip ;;
-  (if faked then CSkip   (* tj3DecodeYUVPlanes8 installs a read_markers that just reports SOS *)
+  (if faked then stage S_HDR   (* tj3DecodeYUVPlanes8 installs a read_markers that just reports SOS; initial_setup can fail *)
    else
      observe_marker_state ;;
      CIf (EEq (EA "fail") (EC S_HDR))
@@ -203,7 +212,8 @@ Definition set_decomp_parameters : cmd :=
 Definition header_or_tables (selfc : bool) (require_image : bool) (tables_case : cmd) : cmd :=
   CIf (EA "tables_only")
       (read_tables_only selfc ;;
-       (if require_image then CRaise (* JERR_NO_IMAGE *) else abortc OD ;; tables_case))
+       (if require_image then CRaise (* JERR_NO_IMAGE *)
+        else (if read_header_tables_only_aborts then abortc OD else CSet gsd (EC dstate_start)) ;; tables_case))
       (read_header selfc true false).
 
 (* --- tj3DecompressHeader ---------------------------------------------------- *)
@@ -219,6 +229,7 @@ Definition prog_header (fx : fixes) (selfc validargs : bool) : prog :=
       CIf icc_wanted (CSet (D "marker->save_APP2") (EC 1)) CSkip ;;
       header_or_tables selfc false (CGoto TReturn) ;;
       set_decomp_parameters ;;
+      CIf icc_wanted use_marker_list CSkip ;;
       CIf icc_wanted
           (CIf (EA "has_icc") (CSet (T "tempICCBuf") (EA "icc_id") ;; CSet (T "tempICCSize") (EA "icc_id")) CSkip)
           CSkip ;;
@@ -370,7 +381,9 @@ Definition prog_decode_yuv (fx : fixes) (merged : bool) : prog :=
       (if fx10 fx then CSet (D "master->lossless") (EC 0) ;; CSet (D "arith_code") (EC 0) else CSkip) ;;
       (if fx12 fx then CSet (D "saw_JFIF_marker") (EC 0) ;; CSet (D "saw_Adobe_marker") (EC 0) ;; CSet (D "Adobe_transform") (EC 0)
        else CSkip) ;;
+      CAlloc (D "marker->dummy_methods") ;;
       read_header false false true ;;
+      CNull (D "marker->dummy_methods") ;;
       (* default_decompress_parms: 3 components: JFIF marker seen -> YCbCr, else Adobe marker seen -> by its transform
          code (0 = RGB), else by the component ids (1,2,3 = YCbCr); these flags are only cleared by get_soi *)
       CObs "jpeg_color_space"
@@ -647,6 +660,7 @@ Definition prog_transform (fx : fixes) (selfc : bool) : prog :=
            CSet (C "next_scanline") (EC 0) ;;
            CSet gsc (EC cstate_wrcoefs) ;;
            CObs "copy_markers" (EIte (EA "copynone") (EC 0) (P "saveMarkers")) ;;
+           use_marker_list ;;
            write_icc ;;
            throw S_XTHROW ;;
            CDeref (C "coef") ;; CDeref (C "entropy") ;; CDeref (C "marker") ;; finish_compress) ;;
@@ -765,8 +779,8 @@ Fixpoint dedup (l acc : list fld) : list fld :=
   match l with [] => acc | f :: t => dedup t (addf f acc) end.
 
 (* between calls *)
-Definition a_probe : astate := mka CSTART DSTART param_fields [].
-Definition a_hist (fx : fixes) : astate := mka CSTART DSTART (dedup (hist_fields fx) param_fields) [].
+Definition a_probe : astate := mka CSTART DSTART param_fields [] idle_nulls.
+Definition a_hist (fx : fixes) : astate := mka CSTART DSTART (dedup (hist_fields fx) param_fields) [] idle_nulls.
 
 Definition exits_from (fx : fixes) (a : astate) (k : opk) : option (list astate) :=
   match ana_prog (prog_of fx k) a with
@@ -786,7 +800,7 @@ Fixpoint inter_all (l : list astate) : list fld :=
   | [a] => a_s a
   | a :: t => inter (a_s a) (inter_all t)
   end.
-Definition next_entry (exits : list astate) : astate := mka CSTART DSTART (inter_all exits) [].
+Definition next_entry (exits : list astate) : astate := mka CSTART DSTART (inter_all exits) [] idle_nulls.
 Fixpoint ok_seq (fx : fixes) (a : astate) (ks : list opk) : bool :=
   match ks with
   | [] => true
